@@ -1,13 +1,25 @@
 /-
 Helper lemmas for C10, controlling expressions (Model/PPExpr.lean):
-* `evalN_narrow_eq`  chibicc's narrowing evaluation = the C11 evaluation whenever no `int`-typed
-                     intermediate result leaves the 32-bit range (outside the region of
-                     C10-ppif-int-result-shift)
+* `evalN_narrow_eq`  chibicc's narrowing, wrapping evaluation = the C11 evaluation whenever C11 defines
+                     the outcome and no `int`-typed intermediate result leaves the 32-bit range
+                     (outside the region of C10-ppif-int-result-shift)
 * token layer: `readDefined` / `identToZero`
 -/
 import ChibiVerif.Model.PPExpr
 namespace ChibiVerif.PPExpr
 open ChibiVerif.CondIncl
+
+/-- where C11 defines the result (or asks for the division-by-zero diagnostic), wrap-around arithmetic gives it -/
+theorem arith_wrap_eq (op : BinOp) (a b : Val) (h : arith true op a b ≠ .error .undefinedBeh) :
+    arith false op a b = arith true op a b := by
+  cases op <;> simp only [arith, Bool.not_false, Bool.not_true, Bool.true_or, Bool.false_or, if_true, Bool.false_and, Bool.true_and] at h ⊢
+  all_goals try rfl
+  all_goals (repeat' split) <;> simp_all
+
+theorem unop_wrap_eq (op : UnOp) (v : Val) (h : unop true op v ≠ .error .undefinedBeh) :
+    unop false op v = unop true op v := by
+  cases op <;> simp only [unop, Bool.not_false, Bool.not_true, Bool.true_or, Bool.false_or, if_true] at h ⊢
+  split <;> simp_all
 
 theorem fin_eq (ty : CTy) (r : Except PPErr Val) (fl : Bool) (h : (fin false ty r fl).2 = false) :
     fin true ty r fl = fin false ty r fl := by
@@ -27,23 +39,31 @@ theorem fin_flag_left (n : Bool) (ty : CTy) (r : Except PPErr Val) (fl : Bool) (
   | error x => simpa [fin] using h
   | ok v => simp only [fin, Bool.or_eq_false_iff] at h; exact h.1
 
-/-- if the C11 evaluation never produces an `int`-typed intermediate result that does not fit in
-    32 bits, chibicc's narrowing evaluation computes the same thing -/
+theorem fin_fst_error (n : Bool) (ty : CTy) (x : PPErr) (fl : Bool) : (fin n ty (.error x) fl).1 = .error x := rfl
+
+theorem fin_ne_ub (ty : CTy) (r : Except PPErr Val) (fl : Bool) (h : (fin false ty r fl).1 ≠ .error .undefinedBeh) :
+    r ≠ .error .undefinedBeh := by
+  intro hr; subst hr; exact h rfl
+
+/-- Where C11 6.10.1p4 defines the outcome (a value, or the division-by-zero diagnostic) and no
+    `int`-typed intermediate result leaves the 32-bit range, chibicc's narrowing, wrapping
+    evaluation computes the same thing. -/
 theorem evalN_narrow_eq (defs : Defs Body) : ∀ (f : Nat) (h : List String) (e : Expr),
-    (evalN false defs f h e).2 = false → evalN true defs f h e = evalN false defs f h e := by
+    (evalN false defs f h e).2 = false → (evalN false defs f h e).1 ≠ .error .undefinedBeh →
+    evalN true defs f h e = evalN false defs f h e := by
   intro f
   induction f with
-  | zero => intro h e _; rfl
+  | zero => intro h e _ _; rfl
   | succ f ih =>
-    intro h e hfl
+    intro h e hfl hne
     cases e with
     | num v u => rfl
     | defined n => rfl
     | ident n =>
-      simp only [evalN] at hfl ⊢
+      simp only [evalN] at hfl hne ⊢
       by_cases hh : h.contains n = true
       · rw [if_pos hh, if_pos hh]
-      · rw [if_neg hh] at hfl
+      · rw [if_neg hh] at hfl hne
         rw [if_neg hh, if_neg hh]
         cases hl : defs.lookup n with
         | none => rfl
@@ -51,53 +71,56 @@ theorem evalN_narrow_eq (defs : Defs Body) : ∀ (f : Nat) (h : List String) (e 
           cases b with
           | none => rfl
           | some e' =>
-            rw [hl] at hfl
-            exact ih (n :: h) e' hfl
+            rw [hl] at hfl hne
+            exact ih (n :: h) e' hfl hne
     | un op a =>
-      simp only [evalN] at hfl ⊢
+      simp only [evalN, Bool.not_false, Bool.not_true] at hfl hne ⊢
       cases hA : evalN false defs f h a with
       | mk ra fa =>
-        rw [hA] at hfl
+        rw [hA] at hfl hne
         cases ra with
         | error x =>
-          simp only at hfl
-          rw [ih h a (by rw [hA]; exact hfl), hA]
+          simp only at hfl hne
+          rw [ih h a (by rw [hA]; exact hfl) (by rw [hA]; exact hne), hA]
         | ok v =>
-          simp only at hfl
+          simp only at hfl hne
           have hfa := fin_flag_left _ _ _ _ hfl
-          rw [ih h a (by rw [hA]; exact hfa), hA]
+          rw [ih h a (by rw [hA]; exact hfa) (by rw [hA]; simp), hA]
+          simp only
+          rw [unop_wrap_eq op v (fin_ne_ub _ _ _ hne)]
           exact fin_eq _ _ _ hfl
     | cond c a b =>
-      simp only [evalN] at hfl ⊢
+      simp only [evalN] at hfl hne ⊢
       cases hC : evalN false defs f h c with
       | mk rc fc =>
-        rw [hC] at hfl
+        rw [hC] at hfl hne
         cases rc with
         | error x =>
-          simp only at hfl
-          rw [ih h c (by rw [hC]; exact hfl), hC]
+          simp only at hfl hne
+          rw [ih h c (by rw [hC]; exact hfl) (by rw [hC]; exact hne), hC]
         | ok vc =>
-          simp only at hfl
+          simp only at hfl hne
           cases hS : (if vc.truth = true then evalN false defs f h a else evalN false defs f h b) with
           | mk rs fs =>
-            rw [hS] at hfl
+            rw [hS] at hfl hne
+            have hfs : (fc || fs) = false := by
+              cases rs with
+              | error x => exact hfl
+              | ok v => exact fin_flag_left _ _ _ _ hfl
+            simp only [Bool.or_eq_false_iff] at hfs
+            have hrs : rs ≠ .error .undefinedBeh := by
+              cases rs with
+              | error x => simpa using hne
+              | ok v => simp
             have hST : (if vc.truth = true then evalN true defs f h a else evalN true defs f h b) = (rs, fs) := by
               cases ht : vc.truth with
               | true =>
                 simp only [ht, if_true] at hS ⊢
-                cases rs with
-                | error x => simp only [Bool.or_eq_false_iff] at hfl; rw [ih h a (by rw [hS]; exact hfl.2), hS]
-                | ok v => have := fin_flag_left _ _ _ _ hfl; simp only [Bool.or_eq_false_iff] at this; rw [ih h a (by rw [hS]; exact this.2), hS]
+                rw [ih h a (by rw [hS]; exact hfs.2) (by rw [hS]; exact hrs), hS]
               | false =>
                 simp only [ht, Bool.false_eq_true, if_false] at hS ⊢
-                cases rs with
-                | error x => simp only [Bool.or_eq_false_iff] at hfl; rw [ih h b (by rw [hS]; exact hfl.2), hS]
-                | ok v => have := fin_flag_left _ _ _ _ hfl; simp only [Bool.or_eq_false_iff] at this; rw [ih h b (by rw [hS]; exact this.2), hS]
-            have hfc : fc = false := by
-              cases rs with
-              | error x => simp only [Bool.or_eq_false_iff] at hfl; exact hfl.1
-              | ok v => have := fin_flag_left _ _ _ _ hfl; simp only [Bool.or_eq_false_iff] at this; exact this.1
-            rw [ih h c (by rw [hC]; exact hfc), hC]
+                rw [ih h b (by rw [hS]; exact hfs.2) (by rw [hS]; exact hrs), hS]
+            rw [ih h c (by rw [hC]; exact hfs.1) (by rw [hC]; simp), hC]
             simp only
             rw [hST, hS]
             cases rs with
@@ -113,33 +136,41 @@ theorem evalN_narrow_eq (defs : Defs Body) : ∀ (f : Nat) (h : List String) (e 
              | (.ok va, fl) =>
                match evalN nb defs f h b with
                | (.error x, fl2) => (.error x, fl || fl2)
-               | (.ok vb, fl2) => fin nb (ctyOf defs (f+1) h (.bin op a b)) (arith op va vb) (fl || fl2)) := by
+               | (.ok vb, fl2) => fin nb (ctyOf defs (f+1) h (.bin op a b)) (arith (!nb) op va vb) (fl || fl2)) := by
           intro nb; cases op <;> first | rfl | exact absurd rfl hop | exact absurd rfl hop2
-        rw [e1 false] at hfl
+        rw [e1 false] at hfl hne
         rw [e1 true, e1 false]
+        simp only [Bool.not_false, Bool.not_true] at hfl hne ⊢
         cases hA : evalN false defs f h a with
         | mk ra fa =>
-          rw [hA] at hfl
+          rw [hA] at hfl hne
           cases ra with
           | error x =>
-            simp only at hfl
-            rw [ih h a (by rw [hA]; exact hfl), hA]
+            simp only at hfl hne
+            rw [ih h a (by rw [hA]; exact hfl) (by rw [hA]; exact hne), hA]
           | ok va =>
-            simp only at hfl
+            simp only at hfl hne
             cases hB : evalN false defs f h b with
             | mk rb fb =>
-              rw [hB] at hfl
+              rw [hB] at hfl hne
               have hfl2 : (fa || fb) = false := by
                 cases rb with
                 | error x => exact hfl
                 | ok vb => exact fin_flag_left _ _ _ _ hfl
+              have hrb : rb ≠ .error .undefinedBeh := by
+                cases rb with
+                | error x => simpa using hne
+                | ok v => simp
               simp only [Bool.or_eq_false_iff] at hfl2
-              rw [ih h a (by rw [hA]; exact hfl2.1), hA]
+              rw [ih h a (by rw [hA]; exact hfl2.1) (by rw [hA]; simp), hA]
               simp only
-              rw [ih h b (by rw [hB]; exact hfl2.2), hB]
+              rw [ih h b (by rw [hB]; exact hfl2.2) (by rw [hB]; exact hrb), hB]
               cases rb with
               | error x => rfl
-              | ok vb => exact fin_eq _ _ _ hfl
+              | ok vb =>
+                simp only at hfl hne ⊢
+                rw [arith_wrap_eq op va vb (fin_ne_ub _ _ _ hne)]
+                exact fin_eq _ _ _ hfl
       have hlog : ∀ (isAnd : Bool), op = (if isAnd then .land else .lor) →
           evalN true defs (f+1) h (.bin op a b) = evalN false defs (f+1) h (.bin op a b) := by
         intro isAnd hop
@@ -152,41 +183,51 @@ theorem evalN_narrow_eq (defs : Defs Body) : ∀ (f : Nat) (h : List String) (e 
                  | (.error x, fl2) => (.error x, fl || fl2)
                  | (.ok vb, fl2) => (.ok (.ofBool vb.truth), fl || fl2)) := by
           intro nb; subst hop; cases isAnd <;> rfl
-        rw [e1 false] at hfl
+        rw [e1 false] at hfl hne
         rw [e1 true, e1 false]
         cases hA : evalN false defs f h a with
         | mk ra fa =>
-          rw [hA] at hfl
+          rw [hA] at hfl hne
           cases ra with
           | error x =>
-            simp only at hfl
-            rw [ih h a (by rw [hA]; exact hfl), hA]
+            simp only at hfl hne
+            rw [ih h a (by rw [hA]; exact hfl) (by rw [hA]; exact hne), hA]
           | ok va =>
-            simp only at hfl
+            simp only at hfl hne
             by_cases hs : (if isAnd then !va.truth else va.truth) = true
             · rw [if_pos hs] at hfl
               simp only at hfl
-              rw [ih h a (by rw [hA]; exact hfl), hA]
+              rw [ih h a (by rw [hA]; exact hfl) (by rw [hA]; simp), hA]
               simp only [if_pos hs]
-            · rw [if_neg hs] at hfl
+            · rw [if_neg hs] at hfl hne
               cases hB : evalN false defs f h b with
               | mk rb fb =>
-                rw [hB] at hfl
+                rw [hB] at hfl hne
                 have hfl2 : (fa || fb) = false := by cases rb <;> exact hfl
+                have hrb : rb ≠ .error .undefinedBeh := by
+                  cases rb with
+                  | error x => simpa using hne
+                  | ok v => simp
                 simp only [Bool.or_eq_false_iff] at hfl2
-                rw [ih h a (by rw [hA]; exact hfl2.1), hA]
+                rw [ih h a (by rw [hA]; exact hfl2.1) (by rw [hA]; simp), hA]
                 simp only
-                rw [if_neg hs, ih h b (by rw [hB]; exact hfl2.2), hB, if_neg hs]
+                rw [if_neg hs, ih h b (by rw [hB]; exact hfl2.2) (by rw [hB]; exact hrb), hB, if_neg hs]
       by_cases h1 : op = .land
       · exact hlog true (by simpa using h1)
       · by_cases h2 : op = .lor
         · exact hlog false (by simpa using h2)
         · exact hgen h1 h2
 
-theorem evC_eq_ev_of_no_overflow (defs : Defs Body) (e : Expr) (h : intResultOverflows defs e = false) :
+/-- C11 leaves the value of the controlling expression undefined (signed overflow, shift count out
+    of range, …): nothing is required of the implementation -/
+def undefinedByC11 (defs : Defs Body) (e : Expr) : Bool :=
+  decide ((evalN false defs FUEL [] e).1 = .error .undefinedBeh)
+
+theorem evC_eq_ev_of_no_overflow (defs : Defs Body) (e : Expr) (h : intResultOverflows defs e = false)
+    (hu : undefinedByC11 defs e = false) :
     evC e defs = ev e defs := by
   unfold evC ev evalTopC evalTop
-  rw [evalN_narrow_eq defs FUEL [] e h]
+  rw [evalN_narrow_eq defs FUEL [] e h (by simpa [undefinedByC11] using hu)]
 
 -- ------------------------------------------------------------------ token layer
 
@@ -270,6 +311,10 @@ theorem evalN_closed (nb : Bool) (d d' : Defs Body) : ∀ (f : Nat) (h : List St
 theorem intResultOverflows_closed (d : Defs Body) (e : Expr) (hc : e.closed = true) :
     intResultOverflows d e = intResultOverflows [] e := by
   unfold intResultOverflows; rw [evalN_closed false d [] FUEL [] e hc]
+
+theorem undefinedByC11_closed (d : Defs Body) (e : Expr) (hc : e.closed = true) :
+    undefinedByC11 d e = undefinedByC11 [] e := by
+  unfold undefinedByC11; rw [evalN_closed false d [] FUEL [] e hc]
 
 
 end ChibiVerif.PPExpr
